@@ -66,3 +66,20 @@ Proof.
   intros Hp Hf Hn Hz. unfold roc_step. rewrite Hf, Hn. cbn [of_opt bind nsub RO]. rewrite divn_ok by exact Hz. cbn [bind].
   eexists. unfold rnd, zn; cbn [nround nmul nofZ RO]. replace (IZR 100) with 100 by reflexivity. reflexivity.
 Qed.
+
+(* WMA: the newest input weighs `period`, the oldest 1, divided by period (period + 1) / 2 *)
+Definition wma_weighted (p : Z) (buf : list R) : R :=
+  fold_left Rplus (map (fun pj : Z * R => snd pj * IZR (p - fst pj)) (combine (indices (List.length buf)) buf)) 0.
+Theorem wma_definition (p nd : Z) (s : state RO) (x : R) :
+  (0 < p)%Z -> full RO p (push RO p x (s_buf RO s)) = true ->
+  exists s', wma_step RO p nd s x =
+    Ok (@VNum RO (rnd10 nd (wma_weighted p (push RO p x (s_buf RO s)) / (IZR (p * (p + 1)) / 2))), s').
+Proof.
+  intros Hp Hf. unfold wma_step. rewrite Hf. unfold zn; cbn [nofZ RO].
+  assert (H2 : IZR 2 <> 0) by (apply not_0_IZR; lia).
+  rewrite divn_ok by exact H2. cbn [bind].
+  assert (Hw : IZR (p * (p + 1)) / IZR 2 <> 0).
+  { assert (0 < IZR (p * (p + 1))) by (apply IZR_lt; nia). replace (IZR 2) with 2 by reflexivity. lra. }
+  rewrite divn_ok by exact Hw. cbn [bind]. eexists. unfold rnd; cbn [nround nsum nmul RO]. unfold wma_weighted.
+  replace (IZR 2) with 2 by reflexivity. reflexivity.
+Qed.
